@@ -226,7 +226,10 @@ func cleanPath(p, proto string) string {
 
 func (m *urlModule) fixURL(u *url.URL) {
 	u.Path = cleanPath(u.Path, u.Scheme)
-	if isSpecialNetProtocol(u.Scheme) {
+	if strings.HasPrefix(u.Host, "[") {
+		// an IP literal: only case is normalised; the brackets stay
+		u.Host = strings.ToLower(u.Host)
+	} else if isSpecialNetProtocol(u.Scheme) {
 		hostname := u.Hostname()
 		lh := strings.ToLower(hostname)
 		ch, err := idna.Punycode.ToASCII(lh)
